@@ -84,8 +84,11 @@ def gen_cases(tier):
                 pre = [["discover", 0, 3]] if disc else []
                 tail = [["set_keys", 0], ["get", 0, "sys"], ["reply", 0, "octets", 9]] if not disc else []
                 yield {"class": "same-octets", "cfgs": [cfg.describe()], "history": pre + length_sweep(2, 12) + tail}
-    # replies the agent padded itself: pad octets of value pad-size (Net-SNMP), zero, 0xff; every residue of the plaintext length
+    # DES replies the agent padded itself (RFC 3414 8.1.1.2: the pad value is irrelevant): pad octets of value pad-size (Net-SNMP),
+    # zero, 0xff; every residue of the plaintext length. (AES-CFB needs no padding - RFC 3826 - so padded AES replies are not judged.)
     for auth, priv in combos:
+        if priv != 1:
+            continue
         cfg = Cfg("v3", auth=auth, priv=priv)
         for how in ("size", "zero", "ff"):
             h = []
